@@ -430,6 +430,18 @@ func runR100(c *Ctx) {
 		key := fmt.Sprintf("%s|step for %s", fnm, cl.name)
 		pe := &pathExec{fn: fn, start: hdr}
 		pe.stopAt = func(b *ssa.BasicBlock) bool { return b == hdr }
+		pe.inline = func(callee *ssa.Function) bool {
+			// helpers of the escaper that receive the current byte (an extracted `append the escape of c`)
+			if callee.Pkg != fn.Pkg {
+				return false
+			}
+			for _, prm := range callee.Params {
+				if b, ok := prm.Type().Underlying().(*types.Basic); ok && (b.Kind() == types.Uint8 || b.Kind() == types.Int32) {
+					return true
+				}
+			}
+			return false
+		}
 		var cval func(v ssa.Value, d int) (int64, bool)
 		cval = func(v ssa.Value, d int) (int64, bool) {
 			if d > 10 {
@@ -508,6 +520,12 @@ func runR100(c *Ctx) {
 			continue
 		}
 		last := pe.path[len(pe.path)-1]
+		for k := len(pe.path) - 1; k >= 0; k-- {
+			if pe.path[k].Parent() == fn { // blocks of inlined helpers are on the path too
+				last = pe.path[k]
+				break
+			}
+		}
 		edge := func(phi *ssa.Phi) ssa.Value {
 			for k, pb := range hdr.Preds {
 				if pb == last {
